@@ -134,7 +134,6 @@ def program_case(draw, max_clients=4, max_calls=4):
     }
 
 
-_ITERS = {}  # suspended iterators of the clients: (cache object, thread, process) -> iterator
 GHOST = ('G',)  # model value of an item whose time-to-live ran out before the program started
 
 
@@ -192,22 +191,21 @@ def do_op(cache, op):
             return ('ok', cache.decr(op[1], op[2], retry=True))
         if name == 'close':
             # (an iteration this client left suspended ends here: going on with it after closing its connection is misuse)
-            _ITERS.pop((id(cache), threading.get_ident(), os.getpid()), None)
+            vars(cache).get('_verif_iters', {}).pop((threading.get_ident(), os.getpid()), None)
             return ('ok', cache.close())
         if name == 'expire':
             return ('ok', cache.expire(retry=True))
         if name in ('iterstart', 'iterend'):
-            slot = (id(cache), threading.get_ident(), os.getpid())
-            it = _ITERS.pop(slot, None)
+            iters = vars(cache).setdefault('_verif_iters', {})  # kept on the object: gone with it, never met by a later case
+            slot = (threading.get_ident(), os.getpid())
+            it = iters.pop(slot, None)
             if name == 'iterstart':
                 it = iter(cache)
                 next(it, None)
-                _ITERS[slot] = it
+                iters[slot] = it
             elif it is not None:
                 for _ in it:
                     pass
-            if len(_ITERS) > 64:
-                _ITERS.clear()
             return ('ok', None)
         if name == 'open':
             shards = getattr(cache, '_count', None)
